@@ -419,13 +419,44 @@ pub fn compile_mir_to_lir(heap: &mut Heap, sources: mir::Sources) -> lir::Source
       LoweringManager::new(heap, &closure_def_map, &types_needing_any_pointer).lower_function(f)
     })
     .collect_vec();
-  lir_unused_name_elimination::optimize_lir_sources_by_eliminating_unused_ones(lir::Sources {
+  let lowered = lir::Sources {
     symbol_table,
     global_variables,
     type_definitions: type_defs,
     main_function_names,
     functions,
-  })
+  };
+  #[cfg(samlang_verif)]
+  if verif::SKIP_UNUSED_NAME_ELIMINATION.with(|flag| flag.get()) {
+    return lowered;
+  }
+  lir_unused_name_elimination::optimize_lir_sources_by_eliminating_unused_ones(lowered)
+}
+
+/// Verification hooks (only with `--cfg samlang_verif`): the lowering without its final unused
+/// name elimination, and that elimination by itself. Add no behaviour.
+#[cfg(samlang_verif)]
+pub mod verif {
+  use super::*;
+
+  thread_local! {
+    pub(super) static SKIP_UNUSED_NAME_ELIMINATION: std::cell::Cell<bool> =
+      const { std::cell::Cell::new(false) };
+  }
+
+  pub fn compile_mir_to_lir_before_elimination(
+    heap: &mut Heap,
+    sources: mir::Sources,
+  ) -> lir::Sources {
+    SKIP_UNUSED_NAME_ELIMINATION.with(|flag| flag.set(true));
+    let lowered = compile_mir_to_lir(heap, sources);
+    SKIP_UNUSED_NAME_ELIMINATION.with(|flag| flag.set(false));
+    lowered
+  }
+
+  pub fn lir_unused_name_elimination(sources: lir::Sources) -> lir::Sources {
+    lir_unused_name_elimination::optimize_lir_sources_by_eliminating_unused_ones(sources)
+  }
 }
 
 #[cfg(test)]
